@@ -286,3 +286,372 @@ func TestVerifC18(t *testing.T) {
 		},
 	})
 }
+
+// ---- C01 / C02: exhaustive fates for the first K datagrams, then a healed network ----
+
+const (
+	fateDeliver = iota
+	fateDrop
+	fateDup
+	fateHold // held back behind the next datagram of the same direction
+	nFates
+)
+
+// runFateCase: A writes a few messages, B echoes nothing; the i-th datagram emitted by either
+// side (in emission order) gets fates[i]; afterwards everything is delivered.  Both the prefix
+// oracle (every Recv) and the drain oracle (heal) apply.
+func runFateCase(lg *vlog, rep *vreport, cfg coreCfg, fates []int, useUpdate bool, healLimit uint32) *coreSim {
+	s := newCoreSim(cfg, lg, rep)
+	var nextFlush [2]uint32
+	nextFlush[0], nextFlush[1] = s.now, s.now
+	seen := 0
+	var held [2][]corePkt
+	nmsg := 4
+	for i := 0; i < nmsg && !s.dead; i++ {
+		b := make([]byte, 1+((i*37)%int(2*s.k[0].mss)))
+		for j := range b {
+			b[j] = byte(i*16 + j)
+		}
+		s.Send(0, b)
+	}
+	if !s.dead {
+		s.Send(1, []byte{9, 9, 9})
+	}
+	for tick := 0; tick < 40 && !s.dead; tick++ {
+		for e := 0; e < 2 && !s.dead; e++ {
+			if useUpdate {
+				if int32(s.now-s.Check(e)) >= 0 {
+					s.Update(e)
+				}
+			} else if int32(s.now-nextFlush[e]) >= 0 {
+				nextFlush[e] = s.now + s.Flush(e, true)
+			}
+		}
+		for from := 0; from < 2 && !s.dead; from++ {
+			to := 1 - from
+			for len(s.pend[from]) > 0 && !s.dead {
+				p := s.pend[from][0]
+				s.pend[from] = s.pend[from][1:]
+				f := fateDeliver
+				if seen < len(fates) {
+					f = fates[seen]
+				}
+				seen++
+				switch f {
+				case fateDrop:
+					s.stats["fate-drop"]++
+				case fateDup:
+					s.stats["fate-dup"]++
+					s.Input(to, p.data, true, cfg.AckND[to])
+					if !s.dead {
+						s.Input(to, p.data, true, cfg.AckND[to])
+					}
+				case fateHold:
+					s.stats["fate-hold"]++
+					held[from] = append(held[from], p)
+					continue
+				default:
+					s.stats["fate-deliver"]++
+					s.Input(to, p.data, true, cfg.AckND[to])
+				}
+				// anything held back goes right after the next one that passed
+				for _, h := range held[from] {
+					if s.dead {
+						break
+					}
+					s.Input(to, h.data, true, cfg.AckND[to])
+				}
+				held[from] = nil
+			}
+		}
+		for e := 0; e < 2 && !s.dead; e++ {
+			for s.k[e].PeekSize() >= 0 && !s.dead && s.Recv(e, 70000) >= 0 {
+			}
+		}
+		s.setNow(s.now + uint32(cfg.Interval[0]))
+		if seen >= len(fates) && tick > 6 {
+			break
+		}
+	}
+	if !s.dead {
+		s.healAndCheck(healLimit, useUpdate)
+	}
+	if !s.dead {
+		s.end()
+	}
+	s.mergeStats()
+	rep.Steps += len(s.ops)
+	return s
+}
+
+func fateSweep(lg *vlog, rep *vreport, rng *vrng, K int) int {
+	n := 0
+	total := 1
+	for i := 0; i < K; i++ {
+		total *= nFates
+	}
+	cfgs := []coreCfg{}
+	for _, stream := range []int{0, 1} {
+		c := stdCfg(stream, 100)
+		c.Snd, c.Rcv = [2]int{4, 4}, [2]int{4, 4}
+		c.Interval = [2]int{10, 10}
+		c.Nodelay = [2]int{1, 1}
+		c.Resend = [2]int{2, 2}
+		c.Nc = [2]int{stream, 1 - stream}
+		c.Isn = [2]uint32{0xfffffffe, 0x7fffffff}
+		c.Clock = 0xffffff00
+		cfgs = append(cfgs, c)
+	}
+	for code := 0; code < total; code++ {
+		fates := make([]int, K)
+		c := code
+		for i := range fates {
+			fates[i] = c % nFates
+			c /= nFates
+		}
+		cfg := cfgs[code%len(cfgs)]
+		runFateCase(lg, rep, cfg, fates, code%3 == 0, 400000)
+		n++
+		rep.Distribution["profile:fate-sweep"]++
+	}
+	rep.Extra["fate_sweep_K"] = K
+	rep.Extra["fate_sweep_cases"] = n
+	return n
+}
+
+// C01 - prefix under faults.
+func TestVerifC01(t *testing.T) {
+	runCoreSuite(t, coreSuite{
+		prop: "C01", mon: coreMon{prefix: true}, nQuick: 300, nThor: 5000,
+		profile: func(i int, rng *vrng) coreProfile {
+			p := defaultProfile()
+			switch i % 3 {
+			case 1:
+				p.name, p.drop, p.dup, p.reorder = "heavy-loss", 40, 20, 50
+			case 2:
+				p.name, p.fec, p.dup = "fec-recovered-duplicates", 30, 30
+			}
+			return p
+		},
+		nontriv: func(info coreCaseInfo, s *coreSim) bool {
+			return info.retrans && (info.dupDelivered || info.reordered) && len(s.delivered[0])+len(s.delivered[1]) > 0
+		},
+		after: func(s *coreSim, rng *vrng, p coreProfile) {
+			if rng.chance(50) {
+				s.healAndCheck(400000, rng.chance(30))
+			}
+		},
+		directed: func(t *testing.T, lg *vlog, rep *vreport, rng *vrng) int {
+			K := 4
+			if vThorough() {
+				K = 6
+			}
+			return fateSweep(lg, rep, rng, K)
+		},
+	})
+}
+
+// C02 - a healed network drains the backlog, after any fault pattern and outage, both drivers.
+func TestVerifC02(t *testing.T) {
+	runCoreSuite(t, coreSuite{
+		prop: "C02", mon: coreMon{prefix: true}, nQuick: 300, nThor: 5000,
+		profile: func(i int, rng *vrng) coreProfile {
+			p := defaultProfile()
+			switch i % 4 {
+			case 1:
+				p.name, p.drop, p.hold = "outage", 90, 60
+			case 2:
+				p.name, p.drop, p.dup, p.reorder = "heavy-loss", 40, 20, 50
+			case 3:
+				p.name, p.stall, p.reorder, p.dup = "stall+stale-acks", 100, 60, 30
+			}
+			return p
+		},
+		nontriv: func(info coreCaseInfo, s *coreSim) bool { return info.retrans || info.zeroWnd },
+		after: func(s *coreSim, rng *vrng, p coreProfile) {
+			// outage of some length first: clock jumps, nothing delivered
+			s.setNow(s.now + uint32(rng.pick(0, 1, 99, 100, 60000, 600000)))
+			s.healAndCheck(600000, rng.chance(40))
+		},
+		directed: func(t *testing.T, lg *vlog, rep *vreport, rng *vrng) int {
+			K := 4
+			if vThorough() {
+				K = 7
+			}
+			return fateSweep(lg, rep, rng, K)
+		},
+	})
+}
+
+// C03 - stalled reader: standstill without loss or bloat, resumption even when WASK/WINS/ACK are lost.
+func runStallCase(lg *vlog, rep *vreport, rng *vrng) {
+	cfg := genCoreCfg(rng, defaultProfile())
+	cfg.Mtu = [2]int{rng.pick(50, 100, 200), 0}
+	cfg.Mtu[1] = cfg.Mtu[0]
+	cfg.Rcv = [2]int{rng.pick(1, 2, 3, 4, 8, 32), rng.pick(1, 2, 3, 4, 8, 32)}
+	s := newCoreSim(cfg, lg, rep)
+	var nextFlush [2]uint32
+	nextFlush[0], nextFlush[1] = s.now, s.now
+	total := 20 + rng.intn(60)
+	sent := 0
+	pauseFrom, pauseLen := rng.intn(30), 10+rng.intn(200)
+	lossFrom, lossLen := pauseFrom+rng.intn(pauseLen), rng.intn(150)
+	useUpdate := rng.chance(30)
+	mss := int(s.k[0].mss)
+	for tick := 0; tick < pauseFrom+pauseLen+40 && !s.dead; tick++ {
+		for sent < total && s.k[0].WaitSnd() < 2*int(s.k[0].snd_wnd)+4 && !s.dead {
+			n := 1 + rng.intn(mss)
+			if cfg.Stream == 0 && rng.chance(20) {
+				n = mss * min(2, int(s.k[1].rcv_wnd))
+			}
+			b := make([]byte, n)
+			for j := range b {
+				b[j] = byte(sent + j)
+			}
+			s.Send(0, b)
+			sent++
+		}
+		for e := 0; e < 2 && !s.dead; e++ {
+			if useUpdate {
+				if int32(s.now-s.Check(e)) >= 0 {
+					s.Update(e)
+				}
+			} else if int32(s.now-nextFlush[e]) >= 0 {
+				nextFlush[e] = s.now + s.Flush(e, true)
+			}
+		}
+		lossy := tick >= lossFrom && tick < lossFrom+lossLen
+		for from := 0; from < 2 && !s.dead; from++ {
+			for len(s.pend[from]) > 0 && !s.dead {
+				p := s.pend[from][0]
+				s.pend[from] = s.pend[from][1:]
+				segs, _ := parseWire(p.data)
+				ctrlOnly := true
+				for _, w := range segs {
+					if w.cmd == IKCP_CMD_PUSH {
+						ctrlOnly = false
+					}
+				}
+				if lossy && ctrlOnly {
+					s.stats["fate-drop-ctrl"]++
+					continue // every WASK/WINS/ACK datagram of this period is lost
+				}
+				if rng.chance(10) && len(s.pend[from]) > 0 { // reorder: makes rmt_wnd stale
+					q := s.pend[from][0]
+					s.pend[from] = s.pend[from][1:]
+					s.Input(1-from, q.data, true, cfg.AckND[1-from])
+					s.stats["fate-reorder"]++
+				}
+				if !s.dead {
+					s.Input(1-from, p.data, true, cfg.AckND[1-from])
+				}
+				if rng.chance(10) && !s.dead {
+					s.Input(1-from, p.data, true, cfg.AckND[1-from])
+					s.stats["fate-dup"]++
+				}
+			}
+		}
+		paused := tick >= pauseFrom && tick < pauseFrom+pauseLen
+		if !paused {
+			for s.k[1].PeekSize() >= 0 && !s.dead && s.Recv(1, 70000) >= 0 {
+			}
+		} else {
+			s.stats["reader-stalled-ticks"]++
+			// no unbounded buffering while stalled (C04 monitors run after every op)
+		}
+		s.setNow(s.now + uint32(rng.pick(1, 10, cfg.Interval[0], 500, 1000)))
+	}
+	if !s.dead {
+		s.healAndCheck(900000, useUpdate)
+	}
+	if !s.dead {
+		s.end()
+	}
+	s.mergeStats()
+	rep.Steps += len(s.ops)
+}
+
+func TestVerifC03(t *testing.T) {
+	runCoreSuite(t, coreSuite{
+		prop: "C03", mon: coreMon{prefix: true, windows: true}, nQuick: 100, nThor: 2000,
+		profile: func(i int, rng *vrng) coreProfile {
+			p := defaultProfile()
+			p.name, p.stall, p.drop = "random-stall", 100, 10
+			return p
+		},
+		nontriv: func(info coreCaseInfo, s *coreSim) bool { return info.zeroWnd },
+		after: func(s *coreSim, rng *vrng, p coreProfile) { s.healAndCheck(900000, rng.chance(30)) },
+		directed: func(t *testing.T, lg *vlog, rep *vreport, rng *vrng) int {
+			n := 150
+			if vThorough() {
+				n = 3000
+			}
+			n = vEnvInt("VERIF_STALL_CASES", n)
+			for i := 0; i < n; i++ {
+				runStallCase(lg, rep, rng)
+				rep.Distribution["profile:directed-stall"]++
+				rep.Nontrivial++
+			}
+			return n
+		},
+	})
+}
+
+// C12 - the same history at different sequence-number / clock offsets gives the same trace.
+func TestVerifC12(t *testing.T) {
+	runInBubble(t, func() {
+		rng := newRng(vSeed())
+		rep := newReport("C12")
+		lg := newVlog(t, "C12.log")
+		defer lg.close()
+		curMon = coreMon{prefix: true}
+		n := coreCounts(t, 120, 1500)
+		for i := 0; i < n; i++ {
+			p := defaultProfile()
+			p.name, p.maxTicks = "offsets", 40
+			base := genCoreCfg(rng, p)
+			hseed := rng.u64()
+			var ref []string
+			w := uint32(rng.intn(60))
+			offs := [][3]uint32{{0, 0, 0}, {1<<31 - w, 1<<31 - w/2, 1<<31 - 40*w}, {0xffffffff - w, 5, 0xffffffff - 7*w},
+				{uint32(rng.u64()), uint32(rng.u64()), uint32(rng.u64())}, {0xffffffff, 0xffffffff, 0xffffffff}}
+			wrapped := false
+			for j, o := range offs {
+				cfg := base
+				cfg.Isn = [2]uint32{o[0], o[1]}
+				cfg.Clock = o[2]
+				s := newCoreSim(cfg, lg, rep)
+				s.traceOn = true
+				info := runCoreHistory(s, newRng(hseed), p)
+				if !s.dead {
+					s.end()
+				}
+				s.mergeStats()
+				rep.Steps += len(s.ops)
+				wrapped = wrapped || info.wrapped
+				rep.Monitors["trace-shift-equal"]++
+				if j == 0 {
+					ref = s.trace
+					if i < 2 {
+						rep.sample(caseSample(s))
+					}
+					continue
+				}
+				if len(ref) != len(s.trace) {
+					s.violate("core-offset-dependent", fmt.Sprintf("history of %d observable steps at offsets 0 has %d steps at sn offsets (%d,%d), clock offset %d", len(ref), len(s.trace), o[0], o[1], o[2]))
+					continue
+				}
+				for x := range ref {
+					if ref[x] != s.trace[x] {
+						s.violate("core-offset-dependent", fmt.Sprintf("step %d differs between offsets 0 and sn offsets (%d,%d), clock offset %d: %.200s / %.200s", x, o[0], o[1], o[2], ref[x], s.trace[x]))
+						break
+					}
+				}
+			}
+			rep.Cases += len(offs)
+			rep.Nontrivial++
+			rep.Distribution["profile:offsets"]++
+		}
+		rep.write(t, "C12.report.json")
+	})
+}
